@@ -73,6 +73,8 @@ type Result struct {
 	Fail      string // property-oracle failure ("" = held)
 	Sig       string // failure signature (for known-findings matching)
 	SkipModel bool   // oracle-only op: not sent to the model
+	ModelOp   string // if non-empty, this line is sent to the model instead of the op (trace validation: the
+	// op names a scenario, the model is asked to accept the event trace the implementation produced)
 }
 
 // Exec runs ops of one case against the real code.
@@ -173,7 +175,11 @@ func runModel(driver, id string, cases []caseRun) ([][]string, error) {
 	for _, c := range cases {
 		in.WriteString("case\n")
 		for _, i := range c.sent {
-			in.WriteString(c.ops[i])
+			if i < len(c.res) && c.res[i].ModelOp != "" {
+				in.WriteString(c.res[i].ModelOp)
+			} else {
+				in.WriteString(c.ops[i])
+			}
 			in.WriteByte('\n')
 		}
 	}
@@ -420,7 +426,11 @@ func Run(p Prop, cfg Config) (*Output, error) {
 		opsF.WriteString("case\n")
 		implF.WriteString("case\n")
 		for _, i := range c.sent {
-			opsF.WriteString(c.ops[i] + "\n")
+			if c.res[i].ModelOp != "" {
+				opsF.WriteString(c.res[i].ModelOp + "\n")
+			} else {
+				opsF.WriteString(c.ops[i] + "\n")
+			}
 			implF.WriteString(c.res[i].Impl + "\n")
 		}
 	}
